@@ -11,6 +11,8 @@ import Drv.Imports
 import Drv.AdapterC19
 import Drv.XTypes
 import Drv.TypeMatch
+import Drv.Filters
+import Drv.Preds
 /-!
 Line-protocol driver: one operation per line on stdin, one canonical answer line on stdout.
 Every engine exports `handle : List String → Option String` answering only its own ops;
@@ -31,7 +33,9 @@ def handlers : List (List String → Option String) := [
   Drv.Imports.handle,
   Drv.AdapterC19.handle,
   Drv.XT.handle,
-  Drv.TM.handle
+  Drv.TM.handle,
+  Drv.Filters.handle,
+  Drv.Preds.handle
 ]
 
 def dispatch (fs : List String) : Option String :=
